@@ -48,6 +48,7 @@ func runC13(c *Ctx) {
 	checkGuarded(c, lc, scope, GuardSpec{Type: pkgProxy + ":loginInboundConn", Mutex: "mu",
 		Fields: []string{"outstandingResponses", "loginMessagesToSend", "isLoginEventFired", "onAllMessagesHandled"}})
 	c.Floor("guarded", 14)
+	checkFiredFlagWithDrain(c, lc)
 
 	orF := c.P.FieldVar(pkgProxy+":loginInboundConn", "outstandingResponses")
 	isOR := func(v ssa.Value) bool {
